@@ -140,6 +140,12 @@ def generate(rng, tier):
               ". 1 IN AAAA 1.2.3.4::", ". 1 IN A 1.2.3.4.", ". 1 IN A 1.2.3.0004", ". 1 IN A 255.255.255.255", ". 1 IN MX 65535 .",
               ". 1 IN MX 65536 .", ". 1 IN SRV 0 0 0 .", ". 1 IN HINFO a b", ". 1 IN MINFO . .", ". 1 IN WKS \\255", ". 1 IN NULL \"\""]:
         cases.append(mk("corpus", t))
+    # char::is_whitespace: every White_Space code point, its neighbours, and look-alikes that are not white space
+    ws = [9, 10, 11, 12, 13, 32, 0x85, 0xa0, 0x1680] + list(range(0x2000, 0x200b)) + [0x2028, 0x2029, 0x202f, 0x205f, 0x3000]
+    cand = sorted(set([c + d for c in ws for d in (-1, 0, 1)] + [0x1c, 0x1f, 0x180e, 0x200b, 0x200c, 0x2060, 0xfeff, 0x7f, 0x80]))
+    for c in cand:
+        if c >= 0 and not (0xd800 <= c <= 0xdfff):
+            cases.append(mk("whitespace", "a." + chr(c) + "300" + chr(c) + "IN A 1.2.3.4"))
     cdir = os.path.join(core.VERIF, "corpus", "C17")
     if os.path.isdir(cdir):
         for fn in sorted(os.listdir(cdir)):
